@@ -115,7 +115,7 @@ func main() {
 	vlib.Parallel(len(order), 12, func(k int) {
 		b := batches[order[k]]
 		args := []string{"child", strconv.FormatInt(c.Seed, 10), strconv.Itoa(b.Idx), b.Kind, strconv.Itoa(b.NGPU), strconv.Itoa(b.Ops)}
-		res := vlib.RunChild(scratch, 20*time.Minute, nil, args...)
+		res := vlib.RunChild(scratch, watchdog, nil, args...)
 		notes := c.AbsorbFile(res.RecPath)
 		_, finished := notes["done"]
 		_, verdict := notes["verdict"]
@@ -160,13 +160,22 @@ func main() {
 			"driver_requests_linked_to_dma":                    int64(c.N(300, 5000)),
 			"kernels_enqueued_while_other_context_has_copies_pending": 1,
 			"canonical_cases|emu":                              100,
-			"canonical_cases|flushlast":                        4,
+			"canonical_cases|flushlast":                        6,
 			"canonical_cases|contain-slack-d2h":                1,
 			"canonical_cases|samepid":                          1,
 			"canonical_cases|stale":                            6,
 		},
 	})
 }
+
+// watchdog is a safety net only (firing = inconclusive); C11_WATCHDOG_S
+// shortens it for self-validation runs against deliberately broken trees.
+var watchdog = func() time.Duration {
+	if v, err := strconv.Atoi(os.Getenv("C11_WATCHDOG_S")); err == nil && v > 0 {
+		return time.Duration(v) * time.Second
+	}
+	return 20 * time.Minute
+}()
 
 func (b batch) pathName() string {
 	switch {
